@@ -36,37 +36,14 @@ theorem mapping_unsorted (reduced I : List Nat) (rows : List (Nat × Nat))
   rw [sortRows_of_perm reduced hinc rows hperm]
   exact this
 
-/-- retained + dropped = n: the table accounts for every original index. -/
-theorem computeRemoved_total : ∀ (s : List Nat), s.Pairwise (· < ·) → s ≠ [] →
-    s.length + ((computeRemoved s).map (·.2)).sum = s.getLast?.getD 0 - s[0]?.getD 0 + 1 := by
-  intro s
-  induction s with
-  | nil => intro _ h; exact absurd rfl h
-  | cons a t ih =>
-    intro hp _
-    match t, hp, ih with
-    | [], _, _ => simp [computeRemoved]
-    | b :: t', hp, ih =>
-      have hab : a < b := List.rel_of_pairwise_cons hp List.mem_cons_self
-      have := ih hp.of_cons (by simp)
-      have hge := strict_getD_ge (b :: t') t'.length hp.of_cons (by simp)
-      have hl : (b :: t').getLast?.getD 0 = (b :: t')[t'.length]?.getD 0 := by
-        rw [List.getLast?_eq_getElem?]; simp
-      simp only [computeRemoved, List.map_cons, List.sum_cons, List.length_cons,
-        List.getLast?_cons_cons] at this ⊢
-      rw [hl] at this ⊢
-      simp at this hge ⊢
-      omega
+/-- retained + dropped = n: the table accounts for every original index between the ends. -/
+theorem removed_accounts_for_all (s : List Nat) (hs : s.Pairwise (· < ·)) (hne : s ≠ []) :
+    s.length + ((computeRemoved s).map (·.2)).sum = s.getLast?.getD 0 - s[0]?.getD 0 + 1 :=
+  computeRemoved_total s hs hne
 
 /-- one row per retained segment -/
-theorem computeRemoved_length : ∀ (s : List Nat), (computeRemoved s).length = s.length - 1 := by
-  intro s
-  induction s with
-  | nil => simp [computeRemoved]
-  | cons a t ih =>
-    cases t with
-    | nil => simp [computeRemoved]
-    | cons b t' => simp [computeRemoved] at ih ⊢; omega
+theorem removed_one_row_per_segment (s : List Nat) : (computeRemoved s).length = s.length - 1 :=
+  computeRemoved_length s
 
 /-! Non-vacuity: a concrete non-trivial reduction satisfies every hypothesis, and the model
 computes what the theorem says. -/
